@@ -609,3 +609,83 @@ def mesh2d_clause(vals):
         ok = ok and d.shape == (2, len(want[tag])) and bool(np.all(d[0] == v[0])) and bool(np.all(d[1] == v[1]))
     show(nx=nx, ny=ny, ok=ok)
     return bool(ok)
+
+
+# --------------------------------------------------------------------------------------
+# C11
+
+def _make_num(num, limiter=None, kappa=None):
+    import flowdyn.xnum as xnum
+    if num == "muscl":
+        return xnum.muscl(limiter=getattr(xnum, limiter))
+    if num == "extrapolk":
+        return xnum.extrapolk(kappa if kappa is not None else 0.2)
+    return getattr(xnum, num)()
+
+
+def recon_clause(vals, num, limiter, bc, clause="linear"):
+    import flowdyn.mesh as mesh, flowdyn.modeldisc as md, flowdyn.modelphy.convection as conv, flowdyn.field as field
+    n = max(1, min(int(num_or(vals, "n", 8)), 40))
+    msh = mesh.morphedmesh(ncell=n, length=1.0, morph=lambda x: x + 0.3 * x * x)
+    model = conv.model(1.0)
+    nm = _make_num(num, limiter, num_or(vals, "kappa", 0.2))
+    bcd = {"type": bc, "prim": [0.7]}
+    disc = md.fvm1d(model, msh, nm, bcL=bcd, bcR=bcd)
+    al, be = num_or(vals, "alpha", 1.3), num_or(vals, "beta", -0.4)
+
+    def faces(d):
+        f = field.fdata(model, msh, [d])
+        disc.field = f
+        disc.qdata = [x.copy() for x in f.data]
+        disc.cons2prim(); disc.calc_grad(); disc.calc_bc_grad(); disc.interp_face()
+        return disc.pL[0], disc.pR[0]
+    ok = True
+    L, R = faces(np.full(n, 2.5))
+    ok = ok and close(L[1:], np.full(n, 2.5)) and close(R[:-1], np.full(n, 2.5))
+    if num == "extrapol1":
+        d = np.sin(np.arange(n) * 1.7)
+        L, R = faces(d)
+        ok = ok and close(L[1:], d) and close(R[:-1], d)
+    else:
+        L, R = faces(al * msh.xc + be)
+        ex = al * msh.xf + be
+        if n >= 4:
+            ok = ok and close(L[2:n], ex[2:n]) and close(R[1:n - 1], ex[1:n - 1])
+    show(num=num, limiter=limiter, bc=bc, n=n, alpha=al, beta=be, ok=ok)
+    return bool(ok)
+
+
+def num_or(vals, k, d):
+    v = num(vals.get(k))
+    return d if v is None else v
+
+
+def kappa_clause(vals, num, kappa):
+    k = float(Fraction(kappa))
+    return close(_make_num(num).kprec, k)
+
+
+def stencil_clause(vals, num, sign):
+    import flowdyn.mesh as mesh, flowdyn.modeldisc as md, flowdyn.modelphy.convection as conv, flowdyn.field as field
+    a = abs(num_or(vals, "a", 1.5)) * (1 if sign == "a>0" else -1)
+    kap = num_or(vals, "kappa", 0.2)
+    nm = _make_num(num, None, kap)
+    kap = {"extrapol1": None, "extrapol2": -1.0}.get(num, getattr(nm, "kprec", None))
+    ok = True
+    for n in sorted(set([1, 2, 3, 4, 5, 9, max(1, min(int(num_or(vals, "n", 7)), 60))])):
+        msh = mesh.unimesh(ncell=n, length=2.0, x0=0.5)
+        disc = md.fvm1d(conv.model(a), msh, nm)
+        u = np.cos(1.3 * np.arange(n) ** 2 + 0.2)
+        res = disc.rhs(field.fdata(disc.model, msh, [u]))[0]
+        uu = lambda j: u[j % n]
+
+        def ustar(j):
+            c, up, dn = (j, j - 1, j + 1) if a > 0 else (j + 1, j + 2, j)
+            if kap is None:
+                return uu(c)
+            return uu(c) + ((1 - kap) * (uu(c) - uu(up)) + (1 + kap) * (uu(dn) - uu(c))) / 4
+        want = np.array([-(a / (2.0 / n)) * (ustar(i) - ustar(i - 1)) for i in range(n)])
+        if not close(res, want):
+            show(num=num, n=n, a=a, kappa=kap, res=res.tolist()[:5], want=want.tolist()[:5])
+            ok = False
+    return ok
